@@ -167,7 +167,7 @@ def main():
             if o["id"] in baseline or args.rebaseline:
                 failed.append(o)
             else:
-                undecided.append({"unit": o["unit"], "reason": f"obligation {o['id']} fails but is not in the baseline (never discharged on the unchanged tree) - not claimed"})
+                undecided.append({"unit": o["unit"], "reason": f"obligation {o['id']} fails but is not in the baseline (never discharged on the unchanged tree) - not claimed\n" + "\n".join(o.get("failed_checks") or [])})
         # baseline obligations of the selected units that were not produced at all => undecided
         produced = {o["id"] for o in obligations}
         sel_prefix = tuple(u["id"] + "::" for u in sel)
